@@ -168,10 +168,12 @@ type orcDriver struct {
 	shrunk  bool                       // MaxSizePrices was lowered by an accepted update in this block (dom_oracle_paramsupd.go)
 	stale   map[uint64]map[uint64]bool // per token: rounds a lowered retention bound can never reach (finding F-12a)
 	staleSeen map[uint64]bool
+	alignSeen  map[string]bool // alignMonitor: token/case already reported in this history
+	misaligned map[uint64]bool // tokens whose genesis the generator misaligned on purpose (dom_oracle_handover.go)
 }
 
 func newOrcDriver(o *orc, rng *RNG) *orcDriver {
-	d := &orcDriver{orc: o, rng: rng, powers: map[int]int64{}, rounds: map[int]*orcRoundLog{}, detPool: map[int][]string{}, valPool: map[int][]string{}, tainted: map[uint64]bool{}, leaving: map[int]bool{}}
+	d := &orcDriver{orc: o, rng: rng, powers: map[int]int64{}, rounds: map[int]*orcRoundLog{}, detPool: map[int][]string{}, valPool: map[int][]string{}, tainted: map[uint64]bool{}, leaving: map[int]bool{}, misaligned: misalignedAtGenesis(o.spec)}
 	for i, p := range o.spec.Powers {
 		d.powers[i] = p
 	}
@@ -554,6 +556,13 @@ func (d *orcDriver) checkFinal(tok, rid uint64, t orcTx, fiOpen map[int]uint64) 
 	expectRid := f.StartRound + (r.base-f.StartBase)/f.Interval
 	if expectRid != rid {
 		d.grows++
+		if !d.misaligned[tok] {
+			// the ids of this token were aligned at genesis and every later feeder was judged by the chain itself: a
+			// DeliverTx that closes the round by carrying the previous price forward does so although neither the
+			// window has ended nor the validator set changed
+			d.env.Violate("C12.final", "carried-forward-inside-window"+d.sigTag, fmt.Sprintf("feeder %d (base %d): the transaction that completed the round closed it under id %d with price %q — the store's NextRoundID — while the feeder stamps this round with id %d: the agreed price was refused by AppendPriceTR and the previous price carried forward inside the window", fi+1, r.base, rid, pr.Price, expectRid), d.hist)
+			return
+		}
 		d.env.Note("final-on-misaligned-ids(grow)")
 		return
 	}
@@ -693,6 +702,7 @@ func (d *orcDriver) idsMonitor(h uint64, prevPrices map[uint64][]string) {
 		} else if next > gen {
 			d.env.Violate("C12.ids", "latest-missing", fmt.Sprintf("token %d: NextRoundID %d but nothing stored", tok, next), d.hist)
 		}
+		d.alignMonitor(tok, h, next)
 	}
 }
 
@@ -789,6 +799,8 @@ func domOracleC12(env *Env) error {
 	}
 	if env.Int("paramsupd", 0) == 1 {
 		directedParamsUpdates(env, "C12.weights")
+		directedHandover(env, "boundary-first", []uint64{0, 1, 2, 3})
+		directedHandover(env, "control", []uint64{3})
 	}
 	for hi := 0; hi < n; hi++ {
 		spec := genOrcSpec(rng, false)
